@@ -233,4 +233,34 @@ def AcceptFailure.peerCaused : AcceptFailure → Bool
   | .listenerFails => false
   | _ => true
 
+/-! ### a buffered channel that a service drains only while it runs
+
+`BlockPool.errorsCh` (capacity 1000) is read by the reactor's `poolRoutine`, which lives exactly as
+long as the pool runs. `sendError` is called with the pool lock held (`AddBlock`). -/
+
+structure BChan where
+  cap : Nat
+  len : Nat
+  consumer : Bool         -- somebody is receiving from the channel
+deriving Repr
+
+inductive SendRes
+  | sent                  -- a free slot
+  | skipped               -- the guard returned before the send
+  | waits                 -- full, but the consumer will free a slot
+  | blockedForever        -- full and nobody receives: the sender (and every lock it holds) is stuck
+deriving Repr, DecidableEq
+
+/-- `if guarded && !running { return }; ch <- x` -/
+def chanSend (guarded running : Bool) (c : BChan) : BChan × SendRes :=
+  if guarded ∧ ¬ running then (c, .skipped)
+  else if c.len < c.cap then ({ c with len := c.len + 1 }, .sent)
+  else if c.consumer then (c, .waits)
+  else (c, .blockedForever)
+
+/-- `n` sends in a row; the results -/
+def chanSends (guarded running : Bool) : Nat → BChan → List SendRes
+  | 0, _ => []
+  | n+1, c => (chanSend guarded running c).2 :: chanSends guarded running n (chanSend guarded running c).1
+
 end Tmv.ReactorMsgs
